@@ -5,7 +5,7 @@ from pathlib import Path
 
 sys.path.insert(0, str(Path(__file__).resolve().parent))
 from vlib import build  # noqa: E402
-from vlib.common import log  # noqa: E402
+from vlib.common import LEAN, log  # noqa: E402
 
 
 def regenerate():
@@ -43,8 +43,15 @@ def main():
     regenerate()
     ok, lg = build.lake_build()
     if not ok:
-        log(lg[-5000:])
-        sys.exit(1)
+        # a file outside every check's import closure may be broken; build what the checks need, target by
+        # target (each check builds its own targets again and fails closed by itself)
+        log(lg[-3000:])
+        log("[setup] full lake build failed; building the checks' targets one by one")
+        props = sorted(p.stem for p in (LEAN / "OVM" / "Props").glob("C*.lean"))
+        for t in ["OVM.Props." + p for p in props] + ["ovmjudge", "tetjudge", "hexjudge", "ovmbjudge", "asciijudge", "vecjudge", "propjudge"]:
+            ok1, lg1 = build.lake_build([t])
+            if not ok1:
+                log("[setup] target %s does not build" % t)
     build.ovm_lib("asan")
     build.ovm_lib("tsan")
     prebuild()
